@@ -181,3 +181,249 @@ Proof.
     + lia.
     + subst est. apply est_upper; assumption.
 Qed.
+
+(* ------------------------------------------------------------------ U128 *)
+Notation W := 18446744073709551616 (only parsing).
+
+Lemma u_div_w a b : b <> 0 -> u_div flw a b = Ret (a / b).
+Proof.
+  intros H. unfold u_div, u_op, exec64, alu_error.
+  replace (b =? 0) with false by (symmetry; apply N.eqb_neq; exact H). reflexivity.
+Qed.
+
+Lemma u128_log2_w a : wf a -> val a <> 0 -> u128_log2 flw a = Ret (0, N.log2 (val a)).
+Proof.
+  intros Ha E0. unfold u128_log2. cbn [pue wrap_on unsafemath df negb].
+  rewrite u128_eq_zero by exact Ha.
+  replace (val a =? 0) with false by (symmetry; apply N.eqb_neq; exact E0). cbn [negb assert bind].
+  destruct a as [u l]. destruct Ha as [Hu Hl]. unfold val in *. cbn [up lo fst snd] in *.
+  destruct (u =? 0) eqn:Eu; cbn [negb].
+  - apply N.eqb_eq in Eu. subst u. rewrite N.mul_0_l, N.add_0_l in *.
+    replace (l =? 0) with false by (symmetry; apply N.eqb_neq; exact E0). cbn [negb].
+    rewrite mlog2_fl by exact E0. cbn [bind]. f_equal. f_equal.
+    apply is_log2_unique. apply ilog_spec; lia.
+  - apply N.eqb_neq in Eu. rewrite mlog2_fl by exact Eu. cbn [bind].
+    pose proof (ilog2_lt64 u ltac:(lia) Hu) as L64.
+    rewrite u_add_w. cbn [bind].
+    rewrite N.mod_small by (change (2 ^ 64) with W; lia).
+    f_equal. f_equal. apply is_log2_unique.
+    destruct (ilog_spec 2 u ltac:(lia) ltac:(lia) Hu) as [L1 L2]. remember (ilog 2 u) as r.
+    unfold is_log. replace (r + 64 + 1) with (r + 1 + 64) by lia. rewrite !N.pow_add_r.
+    split.
+    + assert (2 ^ r * 2 ^ 64 <= u * 2 ^ 64) by (apply N.mul_le_mono_r; exact L1). lia.
+    + assert ((u + 1) * 2 ^ 64 <= 2 ^ r * 2 ^ 1 * 2 ^ 64).
+      { apply N.mul_le_mono_r. rewrite <- N.pow_add_r. lia. }
+      lia.
+Qed.
+
+(* u128_checked_mul with F_WRAPPING set, when the product fits *)
+Lemma checked_case_w (l1 l2 x A B C D : N) : l1 < 2 ^ 64 -> l2 < 2 ^ 64 -> x < 2 ^ 64 ->
+  A * B = l1 * l2 -> C * D = x * l2 -> (x * 2 ^ 64 + l1) * l2 < 2 ^ 128 ->
+  (let* r := overflowing_mul flw A B in
+   let* m := u_mul flw C D in
+   let* s := u64_checked_add flw (up r) m in
+   match s with None => Ret None | Some v => Ret (Some (v, lo r)) end) =
+  Ret (Some (split ((x * 2 ^ 64 + l1) * l2))).
+Proof.
+  intros H1 H2 Hx HAB HCD Hfit. rewrite overflowing_mul_w. cbn [bind up lo fst snd].
+  rewrite u_mul_w. cbn [bind]. rewrite HAB, HCD.
+  remember (l1 * l2) as p. remember (x * l2) as q.
+  assert (E : (x * 2 ^ 64 + l1) * l2 = q * 2 ^ 64 + p) by (subst p q; ring).
+  rewrite E in *. change (2 ^ 128) with (W * W) in Hfit. change (2 ^ 64) with W in *.
+  assert (Q : q < W) by lia.
+  rewrite (N.mod_small q) by exact Q.
+  unfold u64_checked_add.
+  change (exec64 flw ADD (p / W) q) with (exec64 {| unsafemath := false; wrapping := true |} ADD (p / W) q).
+  rewrite add_wrapping. cbn [vm bind of].
+  assert (S : p / W + q < W) by lia.
+  change (2 ^ 64) with W. rewrite (N.div_small (p / W + q)) by exact S. cbn [negb N.eqb].
+  replace (0 =? 0) with true by reflexivity. cbn [negb].
+  rewrite u_add_w. cbn [bind]. change (2 ^ 64) with W. rewrite N.mod_small by exact S.
+  f_equal. f_equal. unfold split. change (2 ^ 64) with W.
+  rewrite N.div_add_l by discriminate. rewrite (N.add_comm (q * W) p), N.mod_add by discriminate.
+  rewrite (N.add_comm q). reflexivity.
+Qed.
+
+Lemma pow_mul_w_fits a b : wf a -> wf b -> val a * val b < 2 ^ 128 ->
+  pow_mul flw a b = Ret (PVal (split (val a * val b))).
+Proof.
+  destruct a as [u1 l1], b as [u2 l2]. unfold wf, val; cbn [up lo fst snd]. intros [Hu1 Hl1] [Hu2 Hl2] Hfit.
+  unfold pow_mul, u128_checked_mul; cbn [up lo fst snd].
+  destruct (u1 =? 0) eqn:E1.
+  - apply N.eqb_eq in E1. subst u1. cbn [negb andb].
+    replace ((0 * 2 ^ 64 + l1) * (u2 * 2 ^ 64 + l2)) with ((u2 * 2 ^ 64 + l2) * l1) in * by lia.
+    rewrite (checked_case_w l2 l1 u2 l1 l2 l1 u2 Hl2 Hl1 Hu2) by (try lia; exact Hfit). reflexivity.
+  - destruct (u2 =? 0) eqn:E2.
+    + apply N.eqb_eq in E2. subst u2. cbn [negb andb].
+      replace ((u1 * 2 ^ 64 + l1) * (0 * 2 ^ 64 + l2)) with ((u1 * 2 ^ 64 + l1) * l2) in * by lia.
+      rewrite (checked_case_w l1 l2 u1 l1 l2 u1 l2 Hl1 Hl2 Hu1) by (try lia; exact Hfit). reflexivity.
+    + exfalso. apply N.eqb_neq in E1. apply N.eqb_neq in E2.
+      assert (2 ^ 64 * 2 ^ 64 <= (u1 * 2 ^ 64 + l1) * (u2 * 2 ^ 64 + l2))
+        by (apply N.mul_le_mono; change (2 ^ 64) with W; lia).
+      change (2 ^ 128) with (2 ^ 64 * 2 ^ 64) in Hfit. lia.
+Qed.
+
+Lemma pow_mul_df_fits a b : wf a -> wf b -> val a * val b < 2 ^ 128 ->
+  pow_mul df a b = Ret (PVal (split (val a * val b))).
+Proof.
+  intros Ha Hb Hfit. pose proof (pow_mul_df a b Ha Hb) as P.
+  destruct (pow_mul df a b) as [[r |] | c | p |]; try contradiction; try lia.
+  destruct P as [_ ->]. reflexivity.
+Qed.
+
+Lemma pow_loop1_w : forall fuel value e, wf value -> 1 <= e -> e < 2 ^ 64 -> val value ^ e < 2 ^ 128 ->
+  pow_loop1 flw fuel value e = pow_loop1 df fuel value e.
+Proof.
+  induction fuel as [| fuel IH]; intros value e Hv He Hlt Hfit; [reflexivity|].
+  cbn [pow_loop1]. rewrite land1_mod2. destruct (e mod 2 =? 0) eqn:E; [|reflexivity].
+  apply N.eqb_eq in E.
+  assert (E2 : 1 <= e / 2) by (apply N.div_le_lower_bound; [discriminate|]; pose proof (N.div_mod e 2 ltac:(discriminate)); lia).
+  rewrite (pow_even _ _ E) in Hfit.
+  pose proof (pow_ge_base (val value * val value) (e / 2) E2) as G.
+  rewrite pow_mul_w_fits, pow_mul_df_fits by (try assumption; lia). cbn [bind].
+  rewrite !srl1 by exact Hlt.
+  apply IH.
+  - apply wf_split. lia.
+  - exact E2.
+  - pose proof (div_le_self e 2 ltac:(lia)). lia.
+  - rewrite val_split. exact Hfit.
+Qed.
+
+Lemma pow_loop2_w : forall fuel value acc e, wf value -> wf acc -> 1 <= e -> e < 2 ^ 64 ->
+  (val value = 0 \/ 1 <= val acc) -> val acc * (val value * val value) ^ (e / 2) < 2 ^ 128 ->
+  pow_loop2 flw fuel value acc e = pow_loop2 df fuel value acc e.
+Proof.
+  induction fuel as [| fuel IH]; intros value acc e Hv Hacc He Hlt Hnz Hfit; [reflexivity|].
+  cbn [pow_loop2]. destruct (1 <? e) eqn:E1; [|reflexivity].
+  apply N.ltb_lt in E1. rewrite !srl1 by exact Hlt. rewrite land1_mod2.
+  assert (E2 : 1 <= e / 2) by (apply N.div_le_lower_bound; [discriminate|]; lia).
+  assert (L2 : e / 2 < 2 ^ 64) by (pose proof (div_le_self e 2 ltac:(lia)); lia).
+  remember (val value * val value) as vv.
+  assert (Fvv : vv < 2 ^ 128).
+  { destruct Hnz as [Z | P]; [subst vv; rewrite Z; vm_compute; reflexivity|].
+    pose proof (pow_ge_base vv (e / 2) E2). nia. }
+  rewrite pow_mul_w_fits, pow_mul_df_fits by (try assumption; rewrite <- Heqvv; exact Fvv). cbn [bind].
+  rewrite <- Heqvv.
+  assert (W2 : wf (split vv)) by (apply wf_split; exact Fvv).
+  destruct (e / 2 mod 2 =? 1) eqn:Eo.
+  - apply N.eqb_eq in Eo. rewrite (pow_odd vv (e / 2) Eo) in Hfit.
+    assert (Fa : val acc * vv < 2 ^ 128).
+    { destruct (N.eq_dec vv 0) as [Zv | NZv]; [rewrite Zv, N.mul_0_r; vm_compute; reflexivity|].
+      pose proof (pow_pos_ge1 (vv * vv) (e / 2 / 2) ltac:(nia)). nia. }
+    rewrite pow_mul_w_fits, pow_mul_df_fits by (try assumption; rewrite val_split; exact Fa). cbn [bind].
+    rewrite val_split.
+    apply IH; try assumption.
+    + apply wf_split. exact Fa.
+    + rewrite val_split.
+      destruct Hnz as [Z | P]; [left; subst vv; rewrite Z; reflexivity|].
+      destruct (N.eq_dec vv 0) as [Zv | NZv]; [left; exact Zv | right; rewrite val_split; nia].
+    + rewrite !val_split. rewrite <- N.mul_assoc. exact Hfit.
+  - apply N.eqb_neq in Eo.
+    assert (Ev : e / 2 mod 2 = 0) by (pose proof (N.mod_lt (e / 2) 2 ltac:(discriminate)); lia).
+    rewrite (pow_even vv (e / 2) Ev) in Hfit.
+    apply IH; try assumption.
+    + rewrite val_split. destruct Hnz as [Z | P]; [left; subst vv; rewrite Z; reflexivity | right; exact P].
+    + rewrite val_split. exact Hfit.
+Qed.
+
+Lemma u128_pow_w_fits a e : wf a -> e < 2 ^ 32 -> val a ^ e < 2 ^ 128 ->
+  u128_pow flw a e = Ret (split (val a ^ e)).
+Proof.
+  intros Ha He Hfit.
+  assert (D : u128_pow df a e = Ret (split (val a ^ e))).
+  { pose proof (u128_pow_correct a e Ha He) as P. destruct (u128_pow df a e) as [r | c | p |]; try contradiction; try lia.
+    destruct P as [_ ->]. reflexivity. }
+  rewrite <- D. unfold u128_pow, u128_pow_fuel.
+  destruct (e =? 0) eqn:E0; [reflexivity|]. apply N.eqb_neq in E0.
+  destruct (e =? 1) eqn:E1; [reflexivity|]. apply N.eqb_neq in E1.
+  assert (L64 : e < 2 ^ 64) by (change (2 ^ 32) with 4294967296 in He; change (2 ^ 64) with W; lia).
+  rewrite pow_loop1_w by (try assumption; lia).
+  pose proof (pow_loop1_correct 40 a e Ha ltac:(lia) L64) as P1.
+  destruct (pow_loop1 df 40 a e) as [[[v |] e'] | c | p |] eqn:El; cbn [bind];
+    [| reflexivity | reflexivity | reflexivity | reflexivity].
+  destruct P1 as (Wv & Pv & Odd & Le').
+  destruct (e' =? 1) eqn:Ee; [reflexivity|]. apply N.eqb_neq in Ee.
+  assert (E1' : 1 <= e') by (destruct (N.eq_dec e' 0) as [Z | NZ]; [rewrite Z in Odd; discriminate | lia]).
+  apply pow_loop2_w; try assumption.
+  - destruct (N.eq_dec (val v) 0); [left; assumption | right; lia].
+  - rewrite <- (pow_odd (val v) e' Odd). rewrite Pv. exact Hfit.
+Qed.
+
+Lemma land_ones32 r : r < 2 ^ 32 -> N.land r (N.ones 32) = r.
+Proof. intros H. rewrite N.land_ones. apply N.mod_small. exact H. Qed.
+
+Lemma u128_log_loop_correct : forall fuel r a base,
+  (N.to_nat r < fuel)%nat -> wf a -> wf base -> 2 <= val base -> 1 <= val a -> r < 2 ^ 32 ->
+  val base ^ r < 2 ^ 128 -> val a < val base ^ (r + 1) ->
+  exists r', log_loop fuel flw a base (0, r) (split (val base ^ r)) OF_AFTER_POW = Ret (0, r') /\
+             r' < 2 ^ 32 /\ is_log (val base) (val a) r'.
+Proof.
+  induction fuel as [| fuel IH]; intros r a base Hf Ha Hbase Hb Hs Hr Hfit Hup; [lia|].
+  cbn [log_loop]. change (0 <? OF_AFTER_POW) with false. rewrite orb_false_r.
+  rewrite u128_gt_spec by (try assumption; apply wf_split; exact Hfit). rewrite val_split.
+  destruct (val a <? val base ^ r) eqn:E.
+  - apply N.ltb_lt in E.
+    assert (R1 : 1 <= r).
+    { destruct (N.eq_dec r 0) as [-> | NZ]; [change (val base ^ 0) with 1 in E; lia | lia]. }
+    assert (Wr : wf (0, r)) by (unfold wf; cbn [up lo fst snd]; split; [reflexivity | change (2 ^ 32) with 4294967296 in Hr; change (2 ^ 64) with W; lia]).
+    assert (W1 : wf (0, 1)) by (unfold wf; cbn [up lo fst snd]; split; reflexivity).
+    rewrite u128_sub_wrapping by assumption.
+    replace (val (0, r)) with r by (unfold val; cbn [up lo fst snd]; lia).
+    replace (val (0, 1)) with 1 by reflexivity.
+    replace ((2 ^ 128 + r - 1) mod 2 ^ 128) with (r - 1).
+    2:{ replace (2 ^ 128 + r - 1) with (r - 1 + 1 * 2 ^ 128) by lia. rewrite N.mod_add by discriminate.
+        symmetry. apply N.mod_small. change (2 ^ 32) with 4294967296 in Hr. change (2 ^ 128) with (W * W). lia. }
+    cbn [bind].
+    replace (split (r - 1)) with (0, r - 1).
+    2:{ rewrite <- (N.add_0_l (r - 1)) at 2. rewrite <- (N.mul_0_l (2 ^ 64)). rewrite split_mk; [reflexivity|].
+        change (2 ^ 32) with 4294967296 in Hr. change (2 ^ 64) with W. lia. }
+    cbn [lo snd]. rewrite land_ones32 by lia.
+    assert (Ple : val base ^ (r - 1) <= val base ^ r) by (apply pow_le_pow; lia).
+    rewrite u128_pow_w_fits by (try assumption; lia). cbn [bind].
+    apply IH; try assumption; try lia.
+    replace (r - 1 + 1) with r by lia. exact E.
+  - apply N.ltb_ge in E. exists r. split; [reflexivity|]. split; [exact Hr | split; assumption].
+Qed.
+
+Theorem u128_log_correct a base : wf a -> wf base -> 2 <= val base -> 1 <= val a ->
+  log_known 128 (val a) (val base) = false ->
+  exists r, u128_log df a base = Ret r /\ wf r /\ is_log (val base) (val a) (val r).
+Proof.
+  intros Ha Hbase Hb H1 K. unfold u128_log, u128_log_fuel. cbn [pue wrap_on unsafemath df negb].
+  assert (W2 : wf (0, 2)) by (unfold wf; cbn [up lo fst snd]; split; reflexivity).
+  rewrite u128_ge_spec by assumption. replace (val (0, 2)) with 2 by reflexivity.
+  replace (2 <=? val base) with true by (symmetry; apply N.leb_le; exact Hb).
+  rewrite u128_eq_zero by exact Ha.
+  replace (val a =? 0) with false by (symmetry; apply N.eqb_neq; lia).
+  cbn [assert bind negb].
+  rewrite u128_lt_spec by assumption.
+  destruct (val a <? val base) eqn:E.
+  - apply N.ltb_lt in E. exists u128_zero. split; [reflexivity|]. split; [apply wf_zero|].
+    rewrite val_zero. unfold is_log. change (val base ^ 0) with 1. change (0 + 1) with 1. rewrite N.pow_1_r. lia.
+  - apply N.ltb_ge in E.
+    rewrite (u128_log2_w a Ha) by lia. cbn [bind].
+    rewrite (u128_log2_w base Hbase) by lia. cbn [bind].
+    pose proof (log2_ge1 (val base) Hb) as G1.
+    unfold u128_div, u128_div_fuel. cbn [pue wrap_on unsafemath df negb].
+    assert (Wl : wf (0, N.log2 (val base))).
+    { unfold wf; cbn [up lo fst snd]. split; [reflexivity|].
+      assert (N.log2 (val base) < 128) by (apply N.log2_lt_pow2; [lia | apply val_lt; exact Hbase]).
+      change (2 ^ 64) with W. lia. }
+    rewrite u128_eq_zero by exact Wl.
+    replace (val (0, N.log2 (val base))) with (N.log2 (val base)) by (unfold val; cbn [up lo fst snd]; lia).
+    replace (N.log2 (val base) =? 0) with false by (symmetry; apply N.eqb_neq; lia).
+    cbn [negb assert bind up lo fst snd]. replace (0 =? 0) with true by reflexivity. cbn [andb].
+    rewrite u_div_w by lia. cbn [bind].
+    pose proof (est_le (val a) (val base) 128 Hb (val_lt a Ha) H1) as EL.
+    pose proof (not_known 128 (val a) (val base) Hb E K) as Fit.
+    remember (N.log2 (val a) / N.log2 (val base)) as est.
+    assert (E32 : est < 2 ^ 32) by (change (2 ^ 32) with 4294967296; lia).
+    cbn [lo snd]. rewrite land_ones32 by exact E32.
+    rewrite u128_pow_w_fits by assumption. cbn [bind].
+    destruct (u128_log_loop_correct 140 est a base) as (r' & Er & R32 & Lr); try assumption.
+    + lia.
+    + subst est. apply est_upper; assumption.
+    + exists (0, r'). split; [exact Er|]. split.
+      * unfold wf; cbn [up lo fst snd]. split; [reflexivity|]. change (2 ^ 32) with 4294967296 in R32. change (2 ^ 64) with W. lia.
+      * replace (val (0, r')) with r' by (unfold val; cbn [up lo fst snd]; lia). exact Lr.
+Qed.
